@@ -3,7 +3,7 @@
    and chunk lines are the parsers of Properties_C01/C02 (shared code); an error in the response head
    is flagged, so it is reported invalid even on the last byte of a read. *)
 From Via Require Import M_Char M_Parse M_Receive P_Parse.
-From Via Require Import P_Frag P_FragC.
+From Via Require Import P_Frag P_FragC P_Term P_TermC.
 From Via Require Import M_Client P_Client.
 Local Open Scope N_scope.
 
@@ -92,6 +92,14 @@ Theorem C07_fragmentation_invariance : forall cfg frags, ccuts_ok cfg (cv_init c
     (fst (fst (fst (cfeed cfg (cv_init cfg) frags))), snd (fst (fst (cfeed cfg (cv_init cfg) frags))), c, false).
 Proof. intros cfg frags H. apply cfeed_is_stream; [exact (cv_ok_init cfg) | exact H]. Qed.
 
+(* the same about cread_loop itself, the loop http_client::receive_handler runs: the client's read loop is proved to
+   terminate (P_TermC.v), so no fuel appears (ccuts_fine is ccuts_ok without the "not out of fuel" clause) *)
+Theorem C07_fragmentation_invariance_of_the_read_loop : forall cfg frags, ccuts_fine cfg (cv_init cfg) frags ->
+  exists c,
+    cread_loop cfg (cv_init cfg) (concat frags) =
+    (fst (fst (fst (cfeed cfg (cv_init cfg) frags))), snd (fst (fst (cfeed cfg (cv_init cfg) frags))), c, false).
+Proof. intros cfg frags H. apply cfeed_is_one_read; [exact (cv_ok_init cfg) | exact (cv_inv3_init cfg) | exact H]. Qed.
+
 (* non-vacuity: a chunked response cut inside the status line, exactly behind the head, inside a chunk and inside the
    trailers satisfies the premise; the reads deliver the head, one chunk and the last chunk *)
 Example C07_example_cuts_ok :
@@ -125,3 +133,4 @@ Print Assumptions C07_response_head_fragments.
 Print Assumptions C07_chunk_fragments.
 Print Assumptions C07_receive_fragments.
 Print Assumptions C07_fragmentation_invariance.
+Print Assumptions C07_fragmentation_invariance_of_the_read_loop.
